@@ -493,17 +493,45 @@ def _module_const_ast(prog: T.Optional[Program], fn: FunctionInfo, name: str) ->
     return cand if lit(cand) else None
 
 
+_MUT_METHODS = {"append", "add", "extend", "update", "pop", "remove", "clear", "sort", "insert", "discard", "setdefault", "popitem", "reverse"}
+
+
+def _mutated_names(fn: FunctionInfo) -> T.Set[str]:
+    """Locals that are modified in place (method call, item/attribute store, augmented assignment, del)."""
+    cached = getattr(fn, "_mutated_cache", None)
+    if cached is not None:
+        return cached
+    out: T.Set[str] = set()
+    for n in walk_no_nested(fn.node):
+        if isinstance(n, ast.Call) and isinstance(n.func, ast.Attribute) and n.func.attr in _MUT_METHODS and isinstance(n.func.value, ast.Name):
+            out.add(n.func.value.id)
+        elif isinstance(n, (ast.Subscript, ast.Attribute)) and isinstance(n.ctx, (ast.Store, ast.Del)):
+            r = n
+            while isinstance(r, (ast.Subscript, ast.Attribute)):
+                r = r.value
+            if isinstance(r, ast.Name):
+                out.add(r.id)
+        elif isinstance(n, ast.AugAssign) and isinstance(n.target, ast.Name):
+            out.add(n.target.id)
+    try:
+        fn._mutated_cache = out      # type: ignore[attr-defined]
+    except AttributeError:
+        pass
+    return out
+
+
 def inline(fn: FunctionInfo, expr: ast.AST, prog: T.Optional[Program] = None, depth: int = 6, consts: bool = True) -> ast.AST:
     """Copy of expr with single-assignment locals replaced by their defining expressions (recursively) and
     literal module constants replaced by their literals.  Parameters and multiply-assigned names stay."""
     import copy
     memo: T.Dict[str, T.Optional[ast.AST]] = {}
+    mutated = _mutated_names(fn)
 
     def defn(name: str) -> T.Optional[ast.AST]:
         if name in memo:
             return memo[name]
         memo[name] = None
-        if name in fn.all_params:
+        if name in fn.all_params or name in mutated:
             return None
         d = local_defs(fn, name)
         if len(d) == 1 and d[0][1] is not None and isinstance(d[0][0], (ast.Assign, ast.AnnAssign)):
